@@ -186,11 +186,37 @@ func c20ExitCodeOwn(c *Ctx) {
 		n++
 		var foreign []string
 		for _, r := range returnsOf(sf) {
-			for _, org := range p.Origins(r.Results[0], 0) {
-				switch {
-				case strings.HasPrefix(org, "const:"):
-				case strings.HasPrefix(org, "field:") && strings.Contains(org, "private/pkg/app."):
+			// what the returned number is made of, looking through helpers of the package (the errors.As lookup may live
+			// in its own function): constants and fields of the package's own types are fine, any call that produces an
+			// int outside the package - an ExitCode() method of whatever error is in the chain - is not
+			sliceBackDeep(r.Results[0], func(x ssa.Value) bool {
+				cl, ok := x.(*ssa.Call)
+				if !ok {
+					return true
+				}
+				if g := cl.Call.StaticCallee(); g != nil && g.Pkg != nil && g.Pkg.Pkg == pk.Types {
+					return true // a helper of the package: its returns are followed
+				}
+				isInt := false
+				switch t := cl.Type().(type) {
+				case *types.Tuple:
+					for i := 0; i < t.Len(); i++ {
+						if b, ok := t.At(i).Type().Underlying().(*types.Basic); ok && b.Info()&types.IsInteger != 0 {
+							isInt = true
+						}
+					}
 				default:
+					if b, ok := cl.Type().Underlying().(*types.Basic); ok && b.Info()&types.IsInteger != 0 {
+						isInt = true
+					}
+				}
+				if isInt {
+					foreign = append(foreign, "call:"+cl.Call.String())
+				}
+				return true
+			})
+			for _, org := range p.Origins(r.Results[0], 0) {
+				if strings.HasPrefix(org, "field:") && !strings.Contains(org, "private/pkg/app.") {
 					foreign = append(foreign, org)
 				}
 			}
